@@ -1,0 +1,12 @@
+//go:build verif
+
+package cron
+
+import "github.com/ngicks/mockable"
+
+// VerifSetClock swaps the clock. Verification builds only.
+func (c *CronStore) VerifSetClock(clock mockable.Clock) {
+	c.mu.Lock()
+	defer c.mu.Unlock()
+	c.clock = clock
+}
